@@ -40,7 +40,12 @@ for pid in claimed:
             units[u["unit"]] = units.get(u["unit"], 0) + 1
     ul = ", ".join("%s (%d)" % (k, v) for k, v in sorted(units.items())) or ", ".join(u["unit"] for u in pd["units"])
     ob = "%d / %d (%s tier, %.0f s)" % (ev["coverage"]["discharged"], ev["coverage"]["obligations"], ev["tier"], ev["wall_s"]) if ev else "-"
-    bd = ", ".join(b["name"] for b in pd.get("bounded", [])) or "-"
+    bd = ", ".join(b["name"] for b in pd.get("bounded", [])) or ""
+    cap = (ev or {}).get("coverage", {}).get("bounded_by_complete_unwinding_not_counted_as_proof") or {}
+    if cap.get("instances"):
+        bd = (bd + "; " if bd else "") + "%d instances closed by complete unwinding up to the size cap (%d obligations): %s" % (
+            len(cap["instances"]), cap["obligations"], ", ".join(sorted({i.split("/")[0] for i in cap["instances"]})))
+    bd = bd or "-"
     nc = "; ".join(x[:110] for x in pd.get("not_covered", [])[:6])
     rows.append("| %s | %s | %s | %s | %s |" % (pid, ul, ob, bd, nc.replace("|", "\\|")))
 status = "\n".join(rows)
